@@ -10,6 +10,42 @@ Local Open Scope N_scope.
 Definition fixed_cfg (c : config) : Prop :=
   fix_d1 c = true /\ fix_d2a c = true /\ fix_d2b c = true /\ fix_d6 c = true.
 
+
+(* ------------------------------------------------------------------------------------------ *)
+(* the clock component of the environment: [with_clock] changes nothing else *)
+
+Lemma with_clock_local c t : cfg_local (with_clock c t) = cfg_local c. Proof. reflexivity. Qed.
+Lemma with_clock_enr c t : cfg_enr (with_clock c t) = cfg_enr c. Proof. reflexivity. Qed.
+Lemma with_clock_retries c t : cfg_retries (with_clock c t) = cfg_retries c. Proof. reflexivity. Qed.
+Lemma with_clock_timeout c t : cfg_timeout (with_clock c t) = cfg_timeout c. Proof. reflexivity. Qed.
+Lemma with_clock_listen c t : cfg_listen (with_clock c t) = cfg_listen c. Proof. reflexivity. Qed.
+Lemma with_clock_capacity c t : cfg_capacity (with_clock c t) = cfg_capacity c. Proof. reflexivity. Qed.
+Lemma with_clock_ttl c t : cfg_session_ttl (with_clock c t) = cfg_session_ttl c. Proof. reflexivity. Qed.
+Lemma with_clock_grid c t : cfg_grid (with_clock c t) = cfg_grid c. Proof. reflexivity. Qed.
+Lemma with_clock_clock c t : cfg_clock (with_clock c t) = t. Proof. reflexivity. Qed.
+Lemma with_clock_d1 c t : fix_d1 (with_clock c t) = fix_d1 c. Proof. reflexivity. Qed.
+Lemma with_clock_d2a c t : fix_d2a (with_clock c t) = fix_d2a c. Proof. reflexivity. Qed.
+Lemma with_clock_d2b c t : fix_d2b (with_clock c t) = fix_d2b c. Proof. reflexivity. Qed.
+Lemma with_clock_d6 c t : fix_d6 (with_clock c t) = fix_d6 c. Proof. reflexivity. Qed.
+Lemma with_clock_twice c t u : with_clock (with_clock c t) u = with_clock c u. Proof. reflexivity. Qed.
+Lemma fixed_cfg_with_clock c t : fixed_cfg (with_clock c t) <-> fixed_cfg c.
+Proof. unfold fixed_cfg. cbn [with_clock fix_d1 fix_d2a fix_d2b fix_d6]. tauto. Qed.
+Lemma fire_time_with_clock c t d now : fire_time (with_clock c t) d now = fire_time c d now.
+Proof. reflexivity. Qed.
+Lemma establish_with_clock c t : establish (with_clock c t) = establish c.
+Proof. reflexivity. Qed.
+
+(* [touch] only stamps the entry *)
+Lemma touch_enc se t : s_enc (touch se t) = s_enc se. Proof. reflexivity. Qed.
+Lemma touch_dec se t : s_dec (touch se t) = s_dec se. Proof. reflexivity. Qed.
+Lemma touch_old se t : s_old (touch se t) = s_old se. Proof. reflexivity. Qed.
+Lemma touch_await se t : s_await (touch se t) = s_await se. Proof. reflexivity. Qed.
+Lemma touch_counter se t : s_counter (touch se t) = s_counter se. Proof. reflexivity. Qed.
+Lemma touch_used se t : s_used (touch se t) = t. Proof. reflexivity. Qed.
+Lemma sess_expired_with_clock c t se :
+  sess_expired (with_clock c t) se = N.ltb (s_used se + cfg_session_ttl c) t.
+Proof. reflexivity. Qed.
+
 (* ------------------------------------------------------------------------------------------ *)
 (* reflection *)
 
@@ -200,6 +236,46 @@ Section Alist.
         + apply IH; [assumption | intros Hin; apply Hx; right; exact Hin]. }
     apply Hs; [apply alist_remove_NoDup; exact H | apply alist_remove_gone; exact H].
   Qed.
+
+  (* lookups and membership coincide when keys are unique *)
+  Lemma alist_In_uniq k v l : NoDup (map fst l) -> In (k, v) l -> alist_get k l = Some v.
+  Proof.
+    induction l as [| [k' v'] r IH]; cbn [alist_get map fst]; [intros _ [] |].
+    intros H [Hin | Hin].
+    - inversion Hin; subst. rewrite naddr_eqb_refl. reflexivity.
+    - inversion H as [| x y H1 H2]; subst. destruct (naddr_eqb k k') eqn:E.
+      + apply naddr_eqb_eq in E. subst. exfalso. apply H1. apply in_map_iff. exists (k', v). auto.
+      + apply IH; assumption.
+  Qed.
+  Lemma alist_set_uniq k v x l :
+    NoDup (map fst l) -> In (k, x) (alist_set k v l) -> x = v.
+  Proof.
+    induction l as [| [k' v'] r IH]; cbn [alist_set map fst].
+    - intros _ [H | []]. inversion H; reflexivity.
+    - intros Hn. inversion Hn as [| a b H1 H2]; subst. destruct (naddr_eqb k k') eqn:E.
+      + apply naddr_eqb_eq in E. subst. intros [H | H]; [inversion H; reflexivity |].
+        exfalso. apply H1. apply in_map_iff. exists (k', x). auto.
+      + intros [H | H]; [inversion H; subst; rewrite naddr_eqb_refl in E; discriminate | auto].
+  Qed.
+  Lemma alist_get_remove_same k l : NoDup (map fst l) -> alist_get k (alist_remove k l) = None.
+  Proof.
+    intros H. destruct (alist_get k (alist_remove k l)) as [v |] eqn:E; [| reflexivity].
+    exfalso. apply (alist_remove_gone k l H). apply alist_get_In in E. apply in_map_iff. exists (k, v). auto.
+  Qed.
+  Lemma alist_get_remove_other k k' l : k' <> k -> alist_get k' (alist_remove k l) = alist_get k' l.
+  Proof.
+    intros Hne. induction l as [| [k0 v0] r IH]; cbn [alist_remove alist_get]; [reflexivity |].
+    destruct (naddr_eqb k k0) eqn:E.
+    - apply naddr_eqb_eq in E. subst k0. destruct (naddr_eqb k' k) eqn:E'; [| reflexivity].
+      apply naddr_eqb_eq in E'. contradiction.
+    - cbn [alist_get]. destruct (naddr_eqb k' k0); [reflexivity | exact IH].
+  Qed.
+  Lemma alist_get_app k l1 l2 :
+    alist_get k (l1 ++ l2) = match alist_get k l1 with Some v => Some v | None => alist_get k l2 end.
+  Proof.
+    induction l1 as [| [k0 v0] r IH]; cbn [app alist_get]; [reflexivity |].
+    destruct (naddr_eqb k k0); [reflexivity | exact IH].
+  Qed.
 End Alist.
 
 Lemma tl_In {A} (l : list A) x : In x (tl l) -> In x l.
@@ -284,16 +360,18 @@ Proof.
   right. rewrite Forall_forall in F. auto.
 Qed.
 
-(* outputs of the "quiet" functions: datagrams and RequestFailed only *)
+(* outputs of the "quiet" functions: datagrams, RequestFailed and the report of purged (expired)
+   sessions only *)
 Definition quiet_out (o : output) : Prop :=
   match o with
   | OWire _ _ => True
   | OEvent (HRequestFailed _ _) => True
+  | OEvent (HExpiredSessions _) => True
   | OEvent _ => False
   end.
-(* ... that additionally send no handshake packet *)
+(* ... that additionally send no datagram *)
 Definition failed_out (o : output) : Prop :=
-  match o with OEvent (HRequestFailed _ _) => True | _ => False end.
+  match o with OEvent (HRequestFailed _ _) => True | OEvent (HExpiredSessions _) => True | _ => False end.
 Lemma failed_quiet o : failed_out o -> quiet_out o.
 Proof. destruct o as [[]|]; cbn; auto. Qed.
 
@@ -361,34 +439,177 @@ Proof.
 Qed.
 
 (* session cache *)
-Lemma sess_get_some h na se :
-  alist_get na (sessions h) = Some se ->
-  sess_get h na = (set_sessions h (alist_remove na (sessions h) ++ [(na, se)]), Some se).
-Proof. intros E. unfold sess_get. rewrite E. reflexivity. Qed.
-Lemma sess_get_none h na : alist_get na (sessions h) = None -> sess_get h na = (h, None).
+Lemma sess_keys_touch se t : sess_keys (touch se t) = sess_keys se.
+Proof. reflexivity. Qed.
+Lemma touch_desc se t : sess_desc se (touch se t).
+Proof. split; [apply incl_refl | cbn; lia]. Qed.
+
+(* the three cases of LruTimeCache::get_mut *)
+Lemma sess_get_some c h na se :
+  alist_get na (sessions h) = Some se -> sess_expired c se = false ->
+  sess_get c h na = (set_sessions h (alist_remove na (sessions h) ++ [(na, touch se (cfg_clock c))]),
+                     Some (touch se (cfg_clock c))).
+Proof. intros E X. unfold sess_get. rewrite E, X. reflexivity. Qed.
+Lemma sess_get_expired c h na se :
+  alist_get na (sessions h) = Some se -> sess_expired c se = true ->
+  sess_get c h na = (set_sessions h (alist_remove na (sessions h)), None).
+Proof. intros E X. unfold sess_get. rewrite E, X. reflexivity. Qed.
+Lemma sess_get_none c h na : alist_get na (sessions h) = None -> sess_get c h na = (h, None).
 Proof. intros E. unfold sess_get. rewrite E. reflexivity. Qed.
 
-Lemma sess_get_snd h na : snd (sess_get h na) = alist_get na (sessions h).
-Proof. unfold sess_get. destruct (alist_get na (sessions h)); reflexivity. Qed.
-
-Lemma sess_get_In h na : forall x, In x (sessions (fst (sess_get h na))) <-> In x (sessions h).
+Lemma sess_get_snd c h na :
+  snd (sess_get c h na) =
+  match alist_get na (sessions h) with
+  | Some s => if sess_expired c s then None else Some (touch s (cfg_clock c))
+  | None => None
+  end.
 Proof.
-  intros x. unfold sess_get. destruct (alist_get na (sessions h)) eqn:E; cbn [fst]; [| tauto].
-  cbn [sessions set_sessions]. apply In_to_back. exact E.
+  unfold sess_get. destruct (alist_get na (sessions h)) as [s |]; [| reflexivity].
+  destruct (sess_expired c s); reflexivity.
 Qed.
-Lemma sess_get_got h na se : snd (sess_get h na) = Some se -> In (na, se) (sessions (fst (sess_get h na))).
-Proof. rewrite sess_get_snd. intros E. apply sess_get_In. apply alist_get_In. exact E. Qed.
+(* the session returned is the stored one, stamped; the stored one had not expired *)
+Lemma sess_get_stored c h na se :
+  snd (sess_get c h na) = Some se ->
+  exists s0, alist_get na (sessions h) = Some s0 /\ sess_expired c s0 = false /\ se = touch s0 (cfg_clock c).
+Proof.
+  rewrite sess_get_snd. destruct (alist_get na (sessions h)) as [s0 |]; [| discriminate].
+  destruct (sess_expired c s0) eqn:X; [discriminate |]. intros E; inversion E. eauto.
+Qed.
 
-Lemma QH_sess_get h na : QH h (fst (sess_get h na)).
+(* the other fields are untouched *)
+Lemma sess_get_frame c h na :
+  let h' := fst (sess_get c h na) in
+  active h' = active h /\ nmap h' = nmap h /\ pending h' = pending h /\ challenges h' = challenges h /\
+  expected h' = expected h.
+Proof.
+  cbn zeta. unfold sess_get. destruct (alist_get na (sessions h)) as [s |]; [| cbn; auto].
+  destruct (sess_expired c s); cbn; auto.
+Qed.
+
+(* every entry afterwards was there before, except that the entry found is stamped *)
+Lemma sess_get_In c h na x :
+  In x (sessions (fst (sess_get c h na))) ->
+  In x (sessions h) \/
+  exists s0, alist_get na (sessions h) = Some s0 /\ sess_expired c s0 = false /\ x = (na, touch s0 (cfg_clock c)).
+Proof.
+  unfold sess_get. destruct (alist_get na (sessions h)) as [s |] eqn:E; cbn [fst]; [| auto].
+  destruct (sess_expired c s) eqn:X; cbn [fst sessions set_sessions].
+  - intros H. left. eapply In_alist_remove; eauto.
+  - intros H. apply in_app_or in H. destruct H as [H | [H | []]].
+    + left. eapply In_alist_remove; eauto.
+    + right. exists s. auto.
+Qed.
+Lemma sess_get_got c h na se :
+  snd (sess_get c h na) = Some se -> In (na, se) (sessions (fst (sess_get c h na))).
+Proof.
+  unfold sess_get. destruct (alist_get na (sessions h)) as [s |]; [| discriminate].
+  destruct (sess_expired c s); [discriminate |]. cbn [fst snd sessions set_sessions].
+  intros E; inversion E; subst. apply in_or_app. right. left. reflexivity.
+Qed.
+(* nothing found: no entry under [na] is left (at most one entry per address) *)
+Lemma sess_get_gone c h na :
+  SessUniq h -> snd (sess_get c h na) = None -> forall se, ~ In (na, se) (sessions (fst (sess_get c h na))).
+Proof.
+  intros HU. unfold sess_get. destruct (alist_get na (sessions h)) as [s |] eqn:E.
+  - destruct (sess_expired c s); [| discriminate]. intros _ se Hin. cbn [fst sessions set_sessions] in Hin.
+    apply (alist_remove_gone na (sessions h) HU). apply in_map_iff. exists (na, se). auto.
+  - intros _ se Hin. exact (alist_get_None _ _ E _ Hin).
+Qed.
+
+Lemma SessD_sess_get c h na : SessD h (fst (sess_get c h na)).
+Proof.
+  intros x se H. destruct (sess_get_In c h na (x, se) H) as [H1 | [s0 [E [_ H1]]]].
+  - exists se. split; [exact H1 | apply sess_desc_refl].
+  - inversion H1; subst. exists s0. split; [apply alist_get_In; exact E | apply touch_desc].
+Qed.
+Lemma QH_sess_get c h na : QH h (fst (sess_get c h na)).
 Proof.
   split; [| split].
-  - unfold sess_get. destruct (alist_get na (sessions h)); reflexivity.
-  - intros x se H. apply sess_get_In in H. exists se. split; [exact H | apply sess_desc_refl].
-  - unfold UPres, SessUniq, sess_get. destruct (alist_get na (sessions h)); cbn [fst]; [| auto].
-    cbn [sessions set_sessions]. apply to_back_NoDup.
+  - apply (sess_get_frame c h na).
+  - apply SessD_sess_get.
+  - unfold UPres, SessUniq, sess_get. destruct (alist_get na (sessions h)) as [s |]; cbn [fst]; [| auto].
+    destruct (sess_expired c s); cbn [fst sessions set_sessions].
+    + apply alist_remove_NoDup.
+    + apply to_back_NoDup.
 Qed.
-Lemma SessF_sess_get h na : SessF h (fst (sess_get h na)).
-Proof. intros x se H. exists se. apply sess_get_In. exact H. Qed.
+
+(* LruTimeCache::remove_expired_values: a prefix of expired entries is dropped *)
+Lemma drop_expired_split c l :
+  exists pre, l = pre ++ snd (drop_expired c l) /\ map fst pre = fst (drop_expired c l) /\
+    Forall (fun x => sess_expired c (snd x) = true) pre.
+Proof.
+  induction l as [| [na se] r IH]; cbn [drop_expired].
+  - exists []. auto.
+  - destruct (sess_expired c se) eqn:X.
+    + destruct IH as [pre [E1 [E2 F]]]. destruct (drop_expired c r) as [ks r']. cbn [fst snd] in *.
+      exists ((na, se) :: pre). cbn [app map fst]. rewrite <- E1, E2. split; [reflexivity | split; [reflexivity |]].
+      constructor; [exact X | exact F].
+    + exists []. cbn. auto.
+Qed.
+Lemma drop_expired_incl c l : incl (snd (drop_expired c l)) l.
+Proof.
+  destruct (drop_expired_split c l) as [pre [E _]]. intros x H. rewrite E. apply in_or_app. right. exact H.
+Qed.
+(* an entry that has not expired survives *)
+Lemma drop_expired_keeps c l na se :
+  alist_get na l = Some se -> sess_expired c se = false -> alist_get na (snd (drop_expired c l)) = Some se.
+Proof.
+  induction l as [| [k v] r IH]; cbn [alist_get drop_expired]; [discriminate |].
+  destruct (sess_expired c v) eqn:X.
+  - destruct (naddr_eqb na k); [intros E; inversion E; subst; congruence |].
+    intros E Hx. specialize (IH E Hx). destruct (drop_expired c r) as [ks r']. exact IH.
+  - intros E _. cbn [snd alist_get]. exact E.
+Qed.
+Lemma NoDup_app_r {A} (l1 l2 : list A) : NoDup (l1 ++ l2) -> NoDup l2.
+Proof. induction l1 as [| a l1 IH]; cbn; [auto |]. intros H. inversion H; auto. Qed.
+Lemma drop_expired_NoDup c l : NoDup (map fst l) -> NoDup (map fst (snd (drop_expired c l))).
+Proof.
+  destruct (drop_expired_split c l) as [pre [E _]]. intros H. rewrite E, map_app in H.
+  eapply NoDup_app_r; eauto.
+Qed.
+Lemma QH_drop_expired c h : QH h (set_sessions h (snd (drop_expired c (sessions h)))).
+Proof.
+  split; [reflexivity | split].
+  - intros na se H. cbn [sessions set_sessions] in H. exists se.
+    split; [apply (drop_expired_incl c); exact H | apply sess_desc_refl].
+  - unfold UPres, SessUniq. cbn [sessions set_sessions]. apply drop_expired_NoDup.
+Qed.
+(* Handler::remove_expired_sessions in closed form *)
+Lemma remove_expired_sessions_eq c s :
+  remove_expired_sessions c s =
+  match fst (drop_expired c (sessions (hs s))) with
+  | [] => s
+  | ks => emit (with_hs s (set_sessions (hs s) (snd (drop_expired c (sessions (hs s))))))
+            (OEvent (HExpiredSessions ks))
+  end.
+Proof.
+  unfold remove_expired_sessions. destruct (drop_expired c (sessions (hs s))) as [ks l]. cbn [fst snd].
+  destruct ks; reflexivity.
+Qed.
+Lemma remove_expired_sessions_hs c s :
+  hs (remove_expired_sessions c s) = hs s \/
+  hs (remove_expired_sessions c s) = set_sessions (hs s) (snd (drop_expired c (sessions (hs s)))).
+Proof.
+  rewrite remove_expired_sessions_eq. destruct (fst (drop_expired c (sessions (hs s)))); [left | right]; reflexivity.
+Qed.
+Lemma remove_expired_sessions_keeps c s na se :
+  alist_get na (sessions (hs s)) = Some se -> sess_expired c se = false ->
+  alist_get na (sessions (hs (remove_expired_sessions c s))) = Some se.
+Proof.
+  intros E X. destruct (remove_expired_sessions_hs c s) as [H | H]; rewrite H; [exact E |].
+  cbn [sessions set_sessions]. apply drop_expired_keeps; assumption.
+Qed.
+Lemma QH_remove_expired_sessions c s : QH (hs s) (hs (remove_expired_sessions c s)).
+Proof.
+  destruct (remove_expired_sessions_hs c s) as [E | E]; rewrite E; [apply QH_refl | apply QH_drop_expired].
+Qed.
+Lemma remove_expired_sessions_outs c s :
+  OutsExt failed_out s (remove_expired_sessions c s).
+Proof.
+  rewrite remove_expired_sessions_eq. destruct (fst (drop_expired c (sessions (hs s)))) as [| k ks].
+  - apply OutsExt_refl.
+  - exists [OEvent (HExpiredSessions (k :: ks))]. split; [reflexivity |]. constructor; [exact I | constructor].
+Qed.
 
 Lemma QH_sess_put h na se se' :
   In (na, se) (sessions h) -> sess_desc se se' -> QH h (sess_put h na se').
@@ -433,11 +654,11 @@ Proof. unfold encrypt_message. destruct (pop_pk (dr s)) as [[[[? ?] ?] ?] ?]. re
 Lemma encrypt_message_sess c s na se m :
   let se' := snd (fst (encrypt_message c s na se m)) in
   s_enc se' = s_enc se /\ s_dec se' = s_dec se /\ s_old se' = s_old se /\ s_await se' = s_await se /\
-  s_counter se' = s_counter se + 1.
-Proof. unfold encrypt_message. destruct (pop_pk (dr s)) as [[[[? ?] ?] ?] ?]. cbn. auto. Qed.
+  s_counter se' = s_counter se + 1 /\ s_used se' = s_used se.
+Proof. unfold encrypt_message. destruct (pop_pk (dr s)) as [[[[? ?] ?] ?] ?]. cbn. auto 10. Qed.
 Lemma encrypt_message_desc c s na se m : sess_desc se (snd (fst (encrypt_message c s na se m))).
 Proof.
-  destruct (encrypt_message_sess c s na se m) as [E1 [E2 [E3 [_ E5]]]].
+  destruct (encrypt_message_sess c s na se m) as [E1 [E2 [E3 [_ [E5 _]]]]].
   split; [| lia]. unfold sess_keys. rewrite E1, E2, E3. apply incl_refl.
 Qed.
 
